@@ -51,12 +51,12 @@ theorem at_most_one_promotion (cfg : Cfg) (i : In) (h1 h2 : String) (o1 o2 : Boo
 process died — no bookkeeping step at all) leaves `switch` in place for the next manager -/
 theorem request_kept_until_terminal (cfg : Manager.Cfg) (i : Manager.In) (k : SwitchLifecycle.Keys) (sw : Manager.Switch)
     (hs : k.switch = some sw) (hkeep : (SwitchLifecycle.tick cfg i k).lastOk = k.lastOk ∧ (SwitchLifecycle.tick cfg i k).lastRejected = k.lastRejected)
-    (hp : i.perform ≠ .abortedMeanwhile) :
+    (hp : i.perform ≠ .abortedMeanwhile)
+    (hfresh : k.lastOk ≠ some sw ∧ k.lastRejected ≠ some sw) :
     ∃ sw', (SwitchLifecycle.tick cfg i k).switch = some sw' ∧ sw'.from_ = sw.from_ ∧ sw'.to = sw.to := by
-  -- FALSE as stated: if `k.lastRejected = some sw` (or `k.lastOk = some sw`) already, rejecting (finishing) the request
-  -- leaves the result keys unchanged although `switch` is removed.  Concrete counterexample and the corrected
-  -- statement (extra hypothesis `k.lastOk ≠ some sw ∧ k.lastRejected ≠ some sw`), proved:
-  -- `SwitchoverLemmas.request_kept_until_terminal` in MysyncProofs/Lemmas/SwitchoverRequest.lean.
-  sorry
+  -- CORRECTED after a counterexample: without `hfresh` (the result keys do not already hold this very record — a new
+  -- request always differs from older results in `initiated_at`) "the result keys did not change" does not tell a kept
+  -- request from a finished one (`SwitchoverLemmas.request_kept_counterexample`, kernel-checked).
+  exact SwitchoverLemmas.request_kept_until_terminal cfg i k sw hs hkeep hp hfresh
 
 end C07
